@@ -104,6 +104,33 @@ CHECKS.update({
         technique="Kani/CBMC bounded model checking of macro expansions, capture/callback event-order monitors"),
 })
 
+CHECKS.update({
+    "C08": dict(
+        level="model_checking", ref="3 (C08)",
+        text="Bounded model checking over the sequential thread model with byte-level format! rendering: for every profile <= 3x3 under join_spawn!/try_join_spawn! (callers named main / t / unnamed), "
+             "programs with a symbolic parent name (<= 3 symbolic bytes) under spawn!/try_spawn!/join_spawn!, nested spawn macros (3 levels) and a 12-branch program, one CBMC query over all payloads, "
+             "failure flags and early/late placements shows: the op log of each executed multi-branch step is S(i1)..S(in) J(i1)..J(in); every item runs on thread id = spawn ordinal with name "
+             "<parent>_join_<branch> byte for byte; single-branch steps and between-step captures run on the caller with no thread alive; joined == spawned at the end.",
+        technique="Kani/CBMC bounded model checking of macro expansions over a sequential thread model with symbolic placement bits"),
+})
+
+CHECKS.update({
+    "C07": dict(
+        level="translation_validation", ref="3 (C07)",
+        text="Differential check: the same generated program text is expanded under both macro names of each pair (join/join_spawn, try_join/try_join_spawn, the async pairs, and the four aliases "
+             "spawn/try_spawn/async_spawn/try_async_spawn against the names they stand for) inside one harness; one CBMC query over all symbolic payloads, failures and thread/task placements shows "
+             "equal results, equal per-position call counts and, for aliases, equal numbers of threads/tasks spawned. Single-branch two-step programs with a failing first step make a wrong try-flag of an "
+             "alias a solver counterexample.",
+        technique="Kani/CBMC differential equivalence checking of two macro names on the same program text and symbolic inputs"),
+    "C18": dict(
+        level="fault_enumeration", ref="3 (C18)",
+        text="Partial, decided for the two mechanisms the property is anchored in: the fault bit of every spawned model thread / task is symbolic, so one CBMC query per program covers every subset "
+             "of panicking threads (tasks) together with every placement; the check requires that the ONLY failing checks are the expansion's own `join().unwrap()` panic (resp. the `tokio JoinHandle "
+             "failed` panic), that no later-step expression runs after a failed join and that the macro never completes with an injected fault. Panics raised on the calling thread are language "
+             "semantics under panic=abort and are not decided.",
+        technique="Kani/CBMC bounded model checking with symbolic fault bits in the thread/task models; expected-failure set comparison"),
+})
+
 NOT_APPLICABLE = {
     "C15": "Quantifies over token streams fed to the expander and has no run-time dimension; deciding it needs symbolic execution of JoinInputDefault::parse + generate_join, "
            "and Kani 0.68 ICEs on proc_macro2::Ident::new / does not finish pushing one token into a TokenStream in 900 s (DESIGN.md 1.1, 4). A hand model of the parser would not be the repository's code.",
